@@ -1,5 +1,3 @@
-import json, os
-
 SPEC = {
     "id": "C13",
     "n": {"quick": 600, "thorough": 20000},
@@ -27,12 +25,15 @@ SPEC = {
         "technique": "Coq proof over executable model + differential correspondence check (vm_compute) + property oracle on implementation outputs",
     },
     "harness_timeout": {"quick": 300, "thorough": 3000},
+    "search": {"n": 6000, "timeout": 300},
 }
 
 
+
 def run(tier, seed, replay=None):
-    """Generic flow; known findings proposed in patches/C13-known.jsonl count as well until they are merged
-    into KNOWN_FINDINGS.jsonl (duplicates are harmless)."""
+    """Generic flow; findings proposed in patches/C13-known.jsonl that are not yet in KNOWN_FINDINGS.jsonl
+    count as known as well (duplicates are ignored)."""
+    import json, os
     from vlib import runner, common as C
     base = C.known_findings
 
